@@ -130,17 +130,16 @@ pub trait BW6Config: 'static + Eq + Sized {
         }
 
         // f_1(P) = f_(u+1)(P) = f_u(P) * l([u]q, q)(P)
-        let mut f_1 = cfg_chunks_mut!(pairs_1, 4)
-            .map(|pairs| {
-                pairs.iter_mut().fold(f_u, |mut f, (p, coeffs)| {
-                    BW6::<Self>::ell(&mut f, &coeffs.next().unwrap(), &p.0);
-                    f
-                })
-            })
-            .product::<<BW6<Self> as Pairing>::TargetField>();
+        // `f_u` is already the product over *all* pairs, so it must enter `f_1` and `f_2`
+        // exactly once: these two steps cannot be split into independently seeded chunks.
+        let mut f_1 = pairs_1.iter_mut().fold(f_u, |mut f, (p, coeffs)| {
+            BW6::<Self>::ell(&mut f, &coeffs.next().unwrap(), &p.0);
+            f
+        });
 
-        let mut f_2 = cfg_chunks_mut!(pairs_2, 4)
-            .map(|pairs| {
+        let mut f_2 = {
+            let pairs = &mut pairs_2[..];
+            {
                 let mut f = f_u;
                 for i in (1..Self::ATE_LOOP_COUNT_2.len()).rev() {
                     f.square_in_place();
@@ -162,8 +161,8 @@ pub trait BW6Config: 'static + Eq + Sized {
                     }
                 }
                 f
-            })
-            .product::<<BW6<Self> as Pairing>::TargetField>();
+            }
+        };
 
         if Self::ATE_LOOP_COUNT_2_IS_NEGATIVE {
             f_2.cyclotomic_inverse_in_place();
